@@ -164,13 +164,13 @@ var c02wReorgOps = []string{"F", "LC", "FC", "MO", "MS", "RO"}
 
 // c02wKnobs is one enumerated configuration. Zero values are the product defaults.
 type c02wKnobs struct {
-	SegLimit  int   `json:"seg_limit,omitempty"`   // segments per chunk (immutable.SetMaxSegmentLimit4TsStore); default 65535
-	FileSize  int64 `json:"file_size,omitempty"`   // output file size limit in bytes (Config.fileSizeLimit); default 8 GiB
-	MetaCount int   `json:"meta_count,omitempty"`  // chunk metas per meta-index item (Config.maxChunkMetaItemCount); default 512
-	Stream    int   `json:"stream,omitempty"`      // [data.compact] compaction-method: 0 auto (non-streaming for small chunks), 1 streaming
-	OOOFiles  int   `json:"ooo_files,omitempty"`   // [data.merge] max-unordered-file-number; default 64
-	SelfLevel int   `json:"self_level,omitempty"`  // 1: [data.merge] stream-merge-mode-level = 0 (MS runs in streaming mode); default 2 (record mode)
-	MetaZip   int   `json:"meta_zip,omitempty"`    // chunk-meta compress mode (immutable.SetChunkMetaCompressMode); default 0 none
+	SegLimit  int   `json:"seg_limit,omitempty"`  // segments per chunk (immutable.SetMaxSegmentLimit4TsStore); default 65535
+	FileSize  int64 `json:"file_size,omitempty"`  // output file size limit in bytes (Config.fileSizeLimit); default 8 GiB
+	MetaCount int   `json:"meta_count,omitempty"` // chunk metas per meta-index item (Config.maxChunkMetaItemCount); default 512
+	Stream    int   `json:"stream,omitempty"`     // [data.compact] compaction-method: 0 auto (non-streaming for small chunks), 1 streaming
+	OOOFiles  int   `json:"ooo_files,omitempty"`  // [data.merge] max-unordered-file-number; default 64
+	SelfLevel int   `json:"self_level,omitempty"` // 1: [data.merge] stream-merge-mode-level = 0 (MS runs in streaming mode); default 2 (record mode)
+	MetaZip   int   `json:"meta_zip,omitempty"`   // chunk-meta compress mode (immutable.SetChunkMetaCompressMode); default 0 none
 }
 
 func (k c02wKnobs) String() string {
@@ -327,15 +327,18 @@ func c02wApply(v *vShard, m vModel, op string, id int) error {
 // ---- layout ----------------------------------------------------------------------------------
 
 type c02wLayout struct {
-	Names    string  // file names (ordered | out of order) + mem flag: identity of the layout for no-op detection
-	Shape    string  // per file: level/merge/extent class and the segment count of every chunk, per meta-index item
+	Names    string // file names (ordered | out of order) + mem flag: identity of the layout for no-op detection
+	Shape    string // per file: level/merge/extent class and the segment count of every chunk, per meta-index item
 	NOrder   int
 	NUnorder int
 	Mem      bool
 	Bounds   []int64 // first and last time of every segment of every file (sorted, distinct)
 	MaxSegs  int
 	Items    int // max meta-index items in one file
-	PreAgg   []string // development aid (VERIF_C02_PREAGG=1): columns whose value count in the chunk meta differs from the segments
+	// largest number of segments one series has in the ordered files together (a streaming compaction of these files
+	// writes that series as a chunk split over several files when the number exceeds the segments-per-chunk limit)
+	SeriesSegs int
+	PreAgg     []string // development aid (VERIF_C02_PREAGG=1): columns whose value count in the chunk meta differs from the segments
 }
 
 var c02wCheckPreAgg = kit.Getenv("VERIF_C02_PREAGG", "") != ""
@@ -381,6 +384,7 @@ func (v *vShard) c02wLayout() (c02wLayout, error) {
 	l.NOrder, l.NUnorder = len(order), len(unorder)
 	var names, shape strings.Builder
 	bset := map[int64]bool{}
+	perSeries := map[uint64]int{}
 	one := func(f immutable.TSSPFile, ooo bool) error {
 		fn := f.FileName()
 		names.WriteString(fn.String() + " ")
@@ -409,6 +413,12 @@ func (v *vShard) c02wLayout() (c02wLayout, error) {
 					l.MaxSegs = sc
 				}
 				fmt.Fprintf(&shape, "%d ", sc)
+				if !ooo {
+					perSeries[cms[j].GetSid()] += sc
+					if perSeries[cms[j].GetSid()] > l.SeriesSegs {
+						l.SeriesSegs = perSeries[cms[j].GetSid()]
+					}
+				}
 				if c02wCheckPreAgg {
 					l.PreAgg = append(l.PreAgg, c02wPreAgg(f, &cms[j])...)
 				}
@@ -663,9 +673,10 @@ func c02wQueries(l c02wLayout, m vModel) []c02wQuery {
 // ---- one history -----------------------------------------------------------------------------
 
 type c02wCase struct {
-	Wide  bool      `json:"wide"`
-	Knobs c02wKnobs `json:"knobs"`
-	Ops   []string  `json:"ops"`
+	Wide   bool      `json:"wide"`
+	Volume string    `json:"volume,omitempty"` // one of c02wVolumeCases instead of knobs + letters
+	Knobs  c02wKnobs `json:"knobs"`
+	Ops    []string  `json:"ops"`
 }
 
 func (c c02wCase) key(n int) string {
@@ -716,8 +727,13 @@ func c02wRunHistory(rep *kit.Report, dir string, c c02wCase, fullFrom int, stats
 	_ = os.RemoveAll(dir)
 	c.Knobs.apply()
 	c02wInstallTap()
+	splitPath := false // the step under way is a streaming compaction that has to split a chunk (see c02wLayout.SeriesSegs)
 	fail := func(n int, kind, detail string) c02wEnd {
 		cc := c02wCase{Wide: true, Knobs: c.Knobs, Ops: append([]string(nil), c.Ops[:n]...)}
+		if splitPath && strings.HasPrefix(kind, "wide_") {
+			// one defect family with its own kinds: the split-chunk path of StreamIterators.compactColumn
+			kind = "wide_split_chunk_" + strings.TrimPrefix(kind, "wide_")
+		}
 		end.vio = &c02wViolation{kind, c.key(n), detail, cc}
 		return end
 	}
@@ -741,6 +757,7 @@ func c02wRunHistory(rep *kit.Report, dir string, c c02wCase, fullFrom int, stats
 		i, op := st.letter, st.op
 		ce0, me0 := c02wErrCounters()
 		c02wTap.take()
+		splitPath = (op == "LC" || op == "FC") && c.Knobs.Stream == 1 && c.Knobs.SegLimit > 0 && prev.SeriesSegs > c.Knobs.SegLimit
 		if err := c02wApply(v, m, op, i+1); err != nil {
 			return fail(i+1, "wide_op_error", fmt.Sprintf("op %s failed: %v", op, err))
 		}
@@ -846,7 +863,7 @@ type c02wPlan struct {
 	Knobs     []c02wKnobs
 	Ops       []string
 	Depth     int
-	MaxWrites int                                  // at most this many write letters in a history (0 = no bound)
+	MaxWrites int                                   // at most this many write letters in a history (0 = no bound)
 	Allow     func(prefix []string, op string) bool // further restriction of the grammar (nil = none)
 }
 
@@ -878,7 +895,11 @@ func c02wExplore(rep *kit.Report, scratch string, p c02wPlan) {
 				if e2.vio != nil {
 					second = e2.vio.kind + " at " + e2.vio.key + ": " + e2.vio.detail
 				}
-				rep.Violation("wide_not_reproducible", e.vio.key, "second run: "+second+" ||| first run: "+e.vio.kind+": "+e.vio.detail, e.vio.replay)
+				kind := "wide_not_reproducible"
+				if strings.HasPrefix(e.vio.kind, "wide_split_chunk_") {
+					kind = "wide_split_chunk_not_reproducible" // (that path's outcome depends on the state a pooled iterator was left in)
+				}
+				rep.Violation(kind, e.vio.key, "second run: "+second+" ||| first run: "+e.vio.kind+": "+e.vio.detail, e.vio.replay)
 			} else {
 				rep.Violation(e.vio.kind, e.vio.key, e.vio.detail, e.vio.replay)
 			}
@@ -1035,6 +1056,20 @@ func c02WideStage(rep *kit.Report, scratch string) {
 		rep.Max("max_wide_wall_ms", time.Since(t0).Milliseconds())
 	}()
 	only := kit.Getenv("VERIF_C02_PLAN", "")
+	if only == "" || only == "volume" {
+		rep.Note("wide stage volume cases (legal configuration only: max-rows-per-segment=8, more than 65535 segments of one series in one full compaction): %v", c02wVolumeCases)
+		for i, w := range c02wVolumeCases {
+			if !kit.Mine(1000 + 7*i) {
+				continue
+			}
+			rep.Count("wide_volume_cases", 1)
+			rep.Eval(1)
+			rep.DistinctNontrivial(kit.Hash("wide-volume", w))
+			if vio := c02WideVolume(scratch, w); vio != nil {
+				rep.Violation(vio.kind, vio.key, vio.detail, vio.replay)
+			}
+		}
+	}
 	for _, p := range c02wPlans(kit.Thorough()) {
 		if only != "" && only != p.Name {
 			continue
@@ -1061,6 +1096,12 @@ func c02WideStage(rep *kit.Report, scratch string) {
 }
 
 func c02WideReplay(rep *kit.Report, scratch string, c c02wCase) {
+	if c.Volume != "" {
+		if vio := c02WideVolume(scratch, c.Volume); vio != nil {
+			rep.Violation(vio.kind, vio.key, vio.detail, vio.replay)
+		}
+		return
+	}
 	e := c02wRunHistory(rep, vMkdir(scratch, "wreplay"), c, 0, true)
 	if e.vio != nil {
 		rep.Violation(e.vio.kind, e.vio.key, e.vio.detail, e.vio.replay)
@@ -1069,23 +1110,36 @@ func c02WideReplay(rep *kit.Report, scratch string, c c02wCase) {
 
 // ---- legal-configuration witnesses (by data volume) -------------------------------------------
 
-// c02WideVolume re-creates, with nothing but values the product configuration can take (max-rows-per-segment = 8,
-// everything else default: 65535 segments per chunk, compaction method auto, full compaction as the entry point), the
-// two situations the small segment limit of the wide stage reaches with a handful of rows: one series whose
-// segments in the files of one compaction exceed 65535. Not part of the check (VERIF_C02_VOLUME=lost|panic, run the
-// test binary by hand); the result is printed.
-func c02WideVolume(t interface{ Logf(string, ...any) }, scratch, which string) {
-	c02wKnobs{}.apply() // rows per segment 8, all other knobs default
+// The segments-per-chunk limit has a setter (immutable.SetMaxSegmentLimit4TsStore) that nothing in the product calls:
+// a deployed store always runs with 65535. The two volume cases cross that value with nothing but values the
+// configuration file can take (max-rows-per-segment = 8, everything else default: compaction method auto, which picks
+// the streaming compaction for chunks of more than 500 segments; full compaction as the entry point): one series
+// with more than 65535 segments in the files of one compaction.
+//
+//	three-files: 40000 + 40000 + 100 segments of one series in three flushed files, full compaction
+//	missing-column: 65535 segments (the last one half full) with fields f,s, then one more segment with f only
+var c02wVolumeCases = []string{"three-files", "missing-column"}
+
+func c02wVolumeKey(which string) string {
+	return "wide[volume: max-rows-per-segment=8, everything else default] " + which + " FC"
+}
+
+func c02WideVolume(scratch, which string) *c02wViolation {
+	c02wKnobs{}.apply() // rows per segment 8, every other knob at its default
 	c02wInstallTap()
+	cc := c02wCase{Wide: true, Volume: which}
+	fail := func(kind, detail string) *c02wViolation {
+		return &c02wViolation{"wide_split_chunk_" + kind, c02wVolumeKey(which), detail, cc}
+	}
 	dir := vMkdir(scratch, "volume")
+	defer os.RemoveAll(dir)
 	v, err := vOpenShard(dir)
 	if err != nil {
-		t.Logf("open: %v", err)
-		return
+		return &c02wViolation{"harness_open_error", c02wVolumeKey(which), err.Error(), cc}
 	}
 	defer v.Close()
 	next := 1
-	write := func(host, rows int, fields string) {
+	write := func(host, rows int, fields string) error {
 		for rows > 0 {
 			n := rows
 			if n > 20000 {
@@ -1106,22 +1160,22 @@ func c02WideVolume(t interface{ Logf(string, ...any) }, scratch, which string) {
 				next++
 			}
 			if err := v.Write(pts); err != nil {
-				t.Logf("write: %v", err)
+				return err
 			}
 			rows -= n
 		}
+		return nil
 	}
-	count := func(host int) (rows int, bad int) {
-		q := c02wQuery{vQuery{Mst: c02wMst, Fields: vFields[:1], Ascending: true, Start: influxql.MinTime, End: influxql.MaxTime}, 1000}
+	// rows of field f, in time order; every value must be the row's own time index
+	count := func() (rows int, bad int, err error) {
 		var opt query.ProcessorOptions
-		opt.Name, opt.Dimensions, opt.Ascending, opt.FieldAux, opt.MaxParallel, opt.ChunkSize = q.Mst, []string{"host"}, true, q.Fields, 1, 1000
-		opt.StartTime, opt.EndTime = q.Start, q.End
-		schema := genQuerySchema(q.Fields, &opt)
+		opt.Name, opt.Dimensions, opt.Ascending, opt.FieldAux, opt.MaxParallel, opt.ChunkSize = c02wMst, []string{"host"}, true, vFields[:1], 1, 1000
+		opt.StartTime, opt.EndTime = influxql.MinTime, influxql.MaxTime
+		schema := genQuerySchema(vFields[:1], &opt)
 		_, span := tracing.NewTrace("root")
 		info, err := v.sh.CreateCursor(tracing.NewContextWithSpan(context.Background(), span), schema)
 		if err != nil || info == nil {
-			t.Logf("cursor: %v", err)
-			return
+			return 0, 0, err
 		}
 		defer info.Unref()
 		for _, cur := range info.GetCursors() {
@@ -1129,11 +1183,12 @@ func c02WideVolume(t interface{ Logf(string, ...any) }, scratch, which string) {
 				gc.preAgg = true
 				SetNextMethod(cur)
 			}
+			lastT := int64(math.MinInt64)
 			for {
 				rec, _, err := cur.Next()
 				if err != nil {
-					t.Logf("next: %v", err)
-					break
+					_ = cur.Close()
+					return rows, bad, err
 				}
 				if rec == nil {
 					break
@@ -1142,9 +1197,10 @@ func c02WideVolume(t interface{ Logf(string, ...any) }, scratch, which string) {
 				for r := 0; r < rec.RowNums(); r++ {
 					rows++
 					f, isNil := rec.Column(0).FloatValue(r)
-					if isNil || int64(f) != (times[r]-vBase)/int64(time.Second) {
+					if isNil || int64(f) != (times[r]-vBase)/int64(time.Second) || times[r] <= lastT {
 						bad++
 					}
+					lastT = times[r]
 				}
 			}
 			_ = cur.Close()
@@ -1152,33 +1208,65 @@ func c02WideVolume(t interface{ Logf(string, ...any) }, scratch, which string) {
 		return
 	}
 	total := 0
+	var blocks []struct {
+		rows   int
+		fields string
+	}
 	switch which {
-	case "lost":
+	case "three-files":
 		for _, segs := range []int{40000, 40000, 100} {
-			write(1, segs*8, "f")
-			v.Flush()
-			total += segs * 8
+			blocks = append(blocks, struct {
+				rows   int
+				fields string
+			}{segs * 8, "f"})
 		}
-	case "panic":
-		write(0, 65535*8-4, "fs")
+	case "missing-column":
+		blocks = append(blocks, struct {
+			rows   int
+			fields string
+		}{65535*8 - 4, "fs"}, struct {
+			rows   int
+			fields string
+		}{8, "f"})
+	default:
+		return &c02wViolation{"harness_unknown_volume_case", c02wVolumeKey(which), which, cc}
+	}
+	for _, b := range blocks {
+		if err := write(0, b.rows, b.fields); err != nil {
+			return fail("op_error", err.Error())
+		}
 		v.Flush()
-		write(0, 8, "f")
-		v.Flush()
-		total = 65535*8 - 4 + 8
+		total += b.rows
 	}
 	l0, _ := v.c02wLayout()
-	r0, b0 := count(map[string]int{"lost": 1, "panic": 0}[which])
-	t.Logf("VOLUME %s: before full compaction: %d ordered files, max segments per chunk %d, rows read %d (written %d), wrong values %d", which, l0.NOrder, l0.MaxSegs, r0, total, b0)
+	r0, b0, err := count()
+	if err != nil || r0 != total || b0 != 0 {
+		return fail("lost_data", fmt.Sprintf("before the compaction: %d rows written, %d read, %d with a wrong value or out of order, err=%v (%d ordered files)", total, r0, b0, err, l0.NOrder))
+	}
 	ce0, _ := c02wErrCounters()
 	c02wTap.take()
 	err = v.FullCompact()
 	ce1, _ := c02wErrCounters()
 	logs := strings.Join(c02wTap.take(), " || ")
-	if len(logs) > 1200 {
-		logs = logs[:1200]
+	if len(logs) > 1500 {
+		logs = logs[:1500]
+	}
+	before := fmt.Sprintf("%d ordered files, at most %d segments in a chunk, %d segments of the series in all", l0.NOrder, l0.MaxSegs, l0.SeriesSegs)
+	if err != nil || ce1 != ce0 || strings.Contains(logs, "Panic:") {
+		kind := "reorg_error"
+		if strings.Contains(logs, "Panic:") {
+			kind = "reorg_panic"
+		}
+		return fail(kind, fmt.Sprintf("FC: err=%v, compaction errors +%d, error log: %s (before: %s)", err, ce1-ce0, logs, before))
 	}
 	l1, _ := v.c02wLayout()
-	r1, b1 := count(map[string]int{"lost": 1, "panic": 0}[which])
-	t.Logf("VOLUME %s: after full compaction (err=%v, compaction errors +%d): %d ordered files, max segments per chunk %d, rows read %d (written %d), wrong values %d; error log: %s",
-		which, err, ce1-ce0, l1.NOrder, l1.MaxSegs, r1, total, b1, logs)
+	r1, b1, err := count()
+	if err != nil || r1 != total || b1 != 0 {
+		return fail("lost_data", fmt.Sprintf("after FC: %d rows written, %d read, %d with a wrong value or out of order, err=%v (before: %s; after: %d ordered files, at most %d segments in a chunk)",
+			total, r1, b1, err, before, l1.NOrder, l1.MaxSegs))
+	}
+	if l1.NOrder >= l0.NOrder && l1.MaxSegs == l0.MaxSegs {
+		return &c02wViolation{"harness_volume_case_not_compacted", c02wVolumeKey(which), "the full compaction did not change the layout: " + before, cc}
+	}
+	return nil
 }
